@@ -1,5 +1,6 @@
 import SimpleDnsModel.Text
 import SimpleDnsModel.Model.Match
+import SimpleDnsModel.Model.Compress
 import SimpleDnsModel.Spec.NameDecode
 import SimpleDnsModel.Spec.Rfc1035Header
 open Dns Dns.Text
@@ -77,6 +78,10 @@ def answer (ts : List String) : String :=
   | "build" :: rest =>
     match pPacket rest with
     | some (p, []) => showOut hexOfBytes (Packet.build p)
+    | _ => "bad-op"
+  | "build.comp" :: rest =>
+    match pPacket rest with
+    | some (p, []) => showOut hexOfBytes (Packet.buildCompressed p)
     | _ => "bad-op"
   | ["type", c] =>
     match c.toNat? with
